@@ -303,7 +303,7 @@ PROPS["C03"] = {
             "limit below the size, or unparseable input",
     "essential": {"all": ["carrier:query", "carrier:urlencoded", "carrier:headers", "carrier:cookies", "carrier:multipart", "carrier:json", "carrier:xml",
                           "dup-or-case-variant-name", "empty-name-or-value", "delimiter-byte-in-data", "body-limit-below-size:Reject",
-                          "body-limit-below-size:ProcessPartial", "unparseable:json", "multipart-files", "error-flagged", "content-type-with-parameter", "uploads-sharing-a-file-name"]},
+                          "body-limit-below-size:ProcessPartial", "unparseable:json", "multipart-files", "error-flagged", "content-type-with-parameter", "uploads-sharing-a-file-name", "body-split-at-limit"]},
     "assumptions": COMMON_ASSUME + [
         "only data encodable in the carrier is generated (cookie names/values without ';' and surrounding blanks, multipart names without CR/LF/quote, control and non-ASCII bytes always percent-encoded in the request line)",
         "three known findings are excluded by construction while their witnesses still fail (arguments over the limit, colliding JSON keys, multipart without closing boundary)",
